@@ -67,10 +67,10 @@ where
 
     /// Check if this is a single-node cluster
     ///
-    /// Returns `true` if the initial cluster size is 1, indicating this node
-    /// was configured to run in standalone mode without any peers.
-    ///
-    /// This is a convenience method equivalent to `initial_cluster_size() == 1`.
+    /// Returns `true` if the initial cluster size is 1 **and** no other voter has joined since:
+    /// the node was configured to run standalone and still is the only voting member.
+    /// A node that started alone and was later expanded (learners added and promoted) is no
+    /// longer a single-node cluster and must win a real majority like any other node.
     ///
     /// # Use Cases
     /// - Skip Raft election in single-node mode (no peers to vote)
@@ -80,7 +80,7 @@ where
     /// # Safety
     /// Safe for all cluster topology decisions as it's based on immutable configuration.
     async fn is_single_node_cluster(&self) -> bool {
-        self.initial_cluster_size().await == 1
+        self.initial_cluster_size().await == 1 && self.voters().await.is_empty()
     }
 
     /// All pending active nodes in Active state
